@@ -75,6 +75,11 @@ func init() {
 						out = append(out, &Config{ID: fmt.Sprintf("C07/cli/%s/%s|%s", eco, a, b), Pkg: cmdPkg, Func: "C07CliSort3", Args: []ArgSpec{ArgStr(eco), ArgTmpl(a), ArgTmpl(b), ArgTmpl(a)}})
 					}
 				}
+				// one argument is one version, whatever it contains: a list separator inside an argument
+				// (accepted by alpine, composer and maven, whose versions are free-form enough; the other parsers reject it) stays inside it in the output
+				if eco == "alpine" || eco == "composer" || eco == "maven" {
+					out = append(out, &Config{ID: fmt.Sprintf("C07/cli/%s/separator-inside/%s", eco, t2[0]), Pkg: cmdPkg, Func: "C07CliSort3", Args: []ArgSpec{ArgStr(eco), ArgTmpl(t2[0] + "{[,;| ]}{d}"), ArgTmpl(t2[0]), ArgTmpl(t2[0])}})
+				}
 				for _, bad := range []string{"{[a-z!?]}{[!?#]}", "{[!?#]}{[!?#]}{[!?#]}"} {
 					out = append(out, &Config{ID: fmt.Sprintf("C07/clibad/%s/%s", eco, bad), Pkg: cmdPkg, Func: "C07CliSortBad", Args: []ArgSpec{ArgStr(eco), ArgTmpl(t2[0]), ArgTmpl(bad), ArgTmpl(t2[0])}})
 				}
@@ -83,7 +88,7 @@ func init() {
 			return out
 		},
 		Bounds: func(tier string) string {
-			return "real ecosystems: lists of exactly 3 versions from 4 (quick) / 8 (thorough) grammar templates per ecosystem incl. textually different equal versions, and from 3 part-combination templates (golang: the three pseudo-version forms and an ordinary dotted pre-release); one (quick) / all 5 (thorough) non-identity input permutations; ecosystems with an open C01 finding are excluded while that finding is open. Longer lists: the CLI's generic sort function and the real slices.SortFunc over an abstract ecosystem (version = key + text, Compare by key): every weak ordering of 1..5 (quick) / 1..7 (thorough) arguments incl. repeated texts, every 0/1 key vector of length 12 and 13 (quick; 13 takes the pdqsort path) / 12..16 (thorough), every 0/1/2 key vector up to length 10 (thorough), and lists of 33 (64) arguments with 10 (8) free 0/1/2 keys among fixed ones (thorough); that real ecosystems behave like the abstract one rests on C01 (total preorder) and C18 (String returns the text)"
+			return "real ecosystems: lists of exactly 3 versions from 4 (quick) / 8 (thorough) grammar templates per ecosystem incl. textually different equal versions, and from 3 part-combination templates (golang: the three pseudo-version forms and an ordinary dotted pre-release); one (quick) / all 5 (thorough) non-identity input permutations; through the CLI also an argument with a list separator (comma, semicolon, bar, space) inside it; ecosystems with an open C01 finding are excluded while that finding is open. Longer lists: the CLI's generic sort function and the real slices.SortFunc over an abstract ecosystem (version = key + text, Compare by key): every weak ordering of 1..5 (quick) / 1..7 (thorough) arguments incl. repeated texts, every 0/1 key vector of length 12 and 13 (quick; 13 takes the pdqsort path) / 12..16 (thorough), every 0/1/2 key vector up to length 10 (thorough), and lists of 33 (64) arguments with 10 (8) free 0/1/2 keys among fixed ones (thorough); that real ecosystems behave like the abstract one rests on C01 (total preorder) and C18 (String returns the text)"
 		},
 	})
 
